@@ -2,6 +2,8 @@ package main
 
 import (
 	"bytes"
+	"crypto/sha1"
+	"encoding/binary"
 	"flag"
 	"fmt"
 	"sort"
@@ -114,6 +116,22 @@ func crashWorkload(seed uint64, mix string, nops int, disksz uint64, unstable bo
 				}
 			}
 		}
+		// a WRITE is classified by what the REPLY promises (committed >= DATA_SYNC), not by what
+		// was requested; a committed level weaker than the requested one breaks the contract
+		if f := strings.Fields(text); ok && len(f) > 5 && f[0] == "write" {
+			if i := strings.Index(text, " => "); i >= 0 {
+				rf := strings.Fields(text[i+4:])
+				if len(rf) >= 3 {
+					stableReq = rf[2] != "0"
+					if rf[2] < f[4] {
+						emit("# ORACLE C07 committed-weaker-than-requested WRITE with stable=%s is acknowledged with committed=%s", f[4], rf[2])
+					}
+					if !unstable && rf[2] != "2" {
+						emit("# ORACLE C07 option-off-not-file-sync with the unstable option off a WRITE is acknowledged with committed=%s", rf[2])
+					}
+				}
+			}
+		}
 		ops = append(ops, crashOp{start: start, ret: ret, stable: ok && stableReq, line: text})
 		// the reference state after this operation, taken in the same run: the dump's own requests
 		// are read-only at the API (their hole-filling transactions change no visible state)
@@ -156,7 +174,16 @@ func (s *seqRun) metaOp() bool {
 		if r.Chance(1, 2) {
 			tn = s.pickName(td)
 		}
-		s.opRename(fd, s.pickName(fd), td, tn)
+		fn := s.pickName(fd)
+		if h := s.handleOf(fd, fn); h != nil {
+			if o, ok := s.objs[hx(h)]; ok && o.kind == 2 {
+				// moving a DIRECTORY to another parent leaves its ".." behind (known finding
+				// C04 rename:directory-dotdot-and-cycles); the malformed trees that follow (dangling
+				// "..", LOOKUP spinning on it) are consequences of that finding, not of a crash
+				td = fd
+			}
+		}
+		s.opRename(fd, fn, td, tn)
 	case k < 95:
 		h := s.pickFileLive()
 		s.opCommit(h, 0, 0)
@@ -265,11 +292,18 @@ func cmdCrash(fs *flag.FlagSet, args []string) {
 	mix := fs.String("mix", "meta", "meta | data")
 	maxImages := fs.Int("images", 400, "crash images per workload (evenly spread when the trace offers more)")
 	disksz := fs.Uint64("disk", 20000, "disk size")
+	onlySeed := fs.Uint64("wseed", 0, "replay: run only the workload with this seed")
+	onlyUnstable := fs.Bool("wunstable", true, "replay: the unstable option of that workload")
+	fromP := fs.Int("from", 0, "replay: only crash points >= from")
+	toP := fs.Int("to", 1<<30, "replay: only crash points <= to")
 	fs.Parse(args)
 	root := NewRng(*seed)
 	for w := 0; w < *nwl; w++ {
 		wseed := root.U64()
 		unstable := w%3 != 2
+		if *onlySeed != 0 {
+			wseed, unstable = *onlySeed, *onlyUnstable
+		}
 		// the recorded run, with the reference state dumped after every operation
 		rec := NewRecDisk(*disksz)
 		ops, dumps, sb := crashWorkload(wseed, *mix, *nops, *disksz, unstable, rec)
@@ -297,6 +331,7 @@ func cmdCrash(fs *flag.FlagSet, args []string) {
 		for i, o := range ops {
 			emit("# op %d [%d,%d] stable=%v %s", i, o.start, o.ret, o.stable, trunc(o.line))
 		}
+		emitWalTrace(events, *disksz)
 		// crash points: every prefix from p0 on (thinned to maxImages), each with the pending
 		// writes all present, all missing, and each single one missing / alone present
 		type cp struct {
@@ -307,6 +342,9 @@ func cmdCrash(fs *flag.FlagSet, args []string) {
 		}
 		var cps []cp
 		for p := p0; p <= len(events); p++ {
+			if p < *fromP || p > *toP {
+				continue
+			}
 			last := -1
 			for j := 0; j < p; j++ {
 				if !events[j].write {
@@ -353,15 +391,24 @@ func cmdCrash(fs *flag.FlagSet, args []string) {
 				// a stable acknowledgement of an operation that changed something visible: it, and
 				// (log order) everything before it, must survive.  A request that changes nothing -
 				// a read, a rename onto itself - commits an empty transaction and flushes nothing.
-				if o.stable && o.ret <= c.p && dumps[i+1] != dumps[i] {
+				// A successful COMMIT promises that everything acknowledged before it is durable.
+				if o.stable && o.ret <= c.p && (dumps[i+1] != dumps[i] || strings.HasPrefix(o.line, "commit ")) {
 					kmin = i + 1
 				}
-				if o.start < c.p {
+				// an operation invoked when the trace had exactly c.p events may or may not have begun
+				// before the cut (an operation that issues no disk event cannot be placed): allowed
+				if o.start <= c.p {
 					kmax = i + 1
 				}
 			}
 			rs := &seqRun{r: NewRng(1), unstable: unstable, objs: map[string]*objInfo{}, dirs: map[string]*dirInfo{}, hist: map[string]int{},
-				opTimeout: 30e9, deadH: map[string]bool{}, issued: map[string]bool{}, sink: func(string) {}}
+				opTimeout: 30e9, deadH: map[string]bool{}, issued: map[string]bool{}}
+			trouble := ""
+			rs.sink = func(l string) {
+				if strings.HasPrefix(l, "# PANIC") || strings.HasPrefix(l, "# HANG") {
+					trouble = l
+				}
+			}
 			rs.d = NewOverlay(*disksz, img)
 			ok := rs.guarded("recover", func() { rs.srv = nfs.MakeNfs(rs.d) })
 			if !ok {
@@ -373,6 +420,9 @@ func cmdCrash(fs *flag.FlagSet, args []string) {
 			rs.objs[hx(rootfh)] = &objInfo{fh: rootfh, kind: 2}
 			rs.dirs[hx(rootfh)] = &dirInfo{names: map[string][]byte{}}
 			got := rs.dumpTree()
+			if trouble != "" {
+				emit("# ORACLE C01 recovered-server-crashes workload seed %d (%s mix): after recovery at crash point %d (%s) reading the tree back: %s", wseed, *mix, c.p, c.desc, trunc(trouble))
+			}
 			match := -1
 			for k := kmax; k >= kmin; k-- {
 				if dumps[k] == got {
@@ -406,8 +456,8 @@ func cmdCrash(fs *flag.FlagSet, args []string) {
 			} else {
 				distinctStates[match] = true
 				// the recovered server keeps serving
-				if !rs.postCrashProbe() {
-					emit("# ORACLE C01 recovered-server-broken after recovery at crash point %d (%s) a create/write/read/mkdir/remove sequence fails", c.p, c.desc)
+				if why := rs.postCrashProbe(); why != "" {
+					emit("# ORACLE C01 recovered-server-broken workload seed %d (%s mix): after recovery at crash point %d (%s), state after %d operations: %s", wseed, *mix, c.p, c.desc, match, why)
 				}
 				if v := rs.writeVerf(); *mix == "data" && bytes.Equal(v, verfA) && len(v) > 0 {
 					emit("# ORACLE C07 verifier-unchanged the recovered server reports the write verifier of the crashed instance")
@@ -422,11 +472,16 @@ func cmdCrash(fs *flag.FlagSet, args []string) {
 }
 
 // postCrashProbe: the recovered server accepts and serves new operations.
-func (s *seqRun) postCrashProbe() bool {
+func (s *seqRun) postCrashProbe() string {
+	if s.dead {
+		return "the server had already crashed"
+	}
+	last := ""
+	s.sink = func(l string) { last = l }
 	okc := s.hist["create:ok"]
 	f := s.mk("create", s.root(), "postcrash-file")
 	if f == nil || s.hist["create:ok"] != okc+1 {
-		return false
+		return fmt.Sprintf("CREATE of a new name in the root fails: %s", trunc(last))
 	}
 	data := pat(0x5c, 5000)
 	var wr nfstypes.WRITE3res
@@ -435,18 +490,21 @@ func (s *seqRun) postCrashProbe() bool {
 		wr = s.srv.NFSPROC3_WRITE(nfstypes.WRITE3args{File: mkfh3(f), Offset: 100, Count: 5000, Stable: nfstypes.FILE_SYNC, Data: data})
 		rd = s.srv.NFSPROC3_READ(nfstypes.READ3args{File: mkfh3(f), Offset: 100, Count: 5000})
 	}) {
-		return false
+		return "WRITE/READ of a new file panics or hangs"
 	}
 	if wr.Status != nfstypes.NFS3_OK || rd.Status != nfstypes.NFS3_OK || !bytes.Equal(rd.Resok.Data, data) {
-		return false
+		return fmt.Sprintf("WRITE then READ of a new file: write status %d, read status %d, data equal %v", wr.Status, rd.Status, bytes.Equal(rd.Resok.Data, data))
 	}
 	d := s.mk("mkdir", s.root(), "postcrash-dir")
 	if d == nil {
-		return false
+		return fmt.Sprintf("MKDIR of a new name in the root fails: %s", trunc(last))
 	}
 	okr := s.hist["remove:ok"]
 	s.opRemove("remove", s.root(), "postcrash-file")
-	return s.hist["remove:ok"] == okr+1
+	if s.hist["remove:ok"] != okr+1 {
+		return "REMOVE of the file just created fails"
+	}
+	return ""
 }
 
 // writeVerf returns the write verifier the server instance reports.
@@ -466,3 +524,32 @@ func (s *seqRun) writeVerf() []byte {
 }
 
 var _ = sort.Strings
+
+// emitWalTrace prints the recorded disk trace in the vocabulary of the WAL
+// model: slot writes, header writes (decoded), home writes, barriers.
+func emitWalTrace(events []recEvent, disksz uint64) {
+	emit("wt begin %d", disksz)
+	for _, e := range events {
+		if !e.write {
+			emit("wt b")
+			continue
+		}
+		dig := fmt.Sprintf("%x", sha1.Sum(e.blk))[:16]
+		switch {
+		case e.a == 0:
+			end := binary.LittleEndian.Uint64(e.blk[0:8])
+			as := make([]string, 511)
+			for i := 0; i < 511; i++ {
+				as[i] = fmt.Sprintf("%d", binary.LittleEndian.Uint64(e.blk[8+8*i:16+8*i]))
+			}
+			emit("wt h1 %d %s", end, strings.Join(as, ","))
+		case e.a == 1:
+			emit("wt h2 %d", binary.LittleEndian.Uint64(e.blk[0:8]))
+		case e.a < 513:
+			emit("wt s %d %s", e.a-2, dig)
+		default:
+			emit("wt m %d %s", e.a, dig)
+		}
+	}
+	emit("wt end")
+}
